@@ -127,6 +127,16 @@ func (f *Finding) Matches(v *Violation) bool {
 	if f.Status != "open" || f.Property != v.Property {
 		return false
 	}
+	return f.matchesNoProp(v)
+}
+
+// CurrentProperty is set by Main; findings of other properties never match.
+var CurrentProperty string
+
+func (f *Finding) matchesNoProp(v *Violation) bool {
+	if f.Property != CurrentProperty {
+		return false
+	}
 	for k, pred := range f.Match {
 		switch k {
 		case "check":
@@ -172,13 +182,15 @@ type Result struct {
 	Outcomes   map[string]int64      `json:"outcomes"`
 	Incomplete []string              `json:"incomplete"` // sub-spaces not completed (deadline)
 	Notes      []string              `json:"notes"`
+	Matched    map[string]int64      `json:"matched"` // known finding id -> number of violation instances it covered
 
-	sets map[string]map[uint64]struct{}
+	sets     map[string]map[uint64]struct{}
+	findings []Finding
 }
 
 func NewResult() *Result {
 	return &Result{Counters: map[string]int64{}, Distinct: map[string]int64{}, Violations: map[string]*Violation{},
-		Outcomes: map[string]int64{}, sets: map[string]map[uint64]struct{}{}}
+		Outcomes: map[string]int64{}, sets: map[string]map[uint64]struct{}{}, Matched: map[string]int64{}, findings: LoadFindings()}
 }
 
 func (r *Result) Add(name string, n int64) {
@@ -248,6 +260,14 @@ func (r *Result) Note(s string) {
 func (r *Result) Violate(v Violation) {
 	r.mu.Lock()
 	defer r.mu.Unlock()
+	// known findings are matched per instance (so predicates may use instance attributes), before de-duplication
+	for i := range r.findings {
+		f := &r.findings[i]
+		if f.Status == "open" && f.matchesNoProp(&v) {
+			r.Matched[f.ID]++
+			return
+		}
+	}
 	sig := v.Sig()
 	if old, ok := r.Violations[sig]; ok {
 		old.Count++
@@ -271,6 +291,9 @@ func (r *Result) merge(o *Result) {
 	}
 	for k, v := range o.Outcomes {
 		r.Outcomes[k] += v
+	}
+	for k, v := range o.Matched {
+		r.Matched[k] += v
 	}
 	for _, s := range o.Samples {
 		if len(r.Samples) < 6 {
@@ -354,6 +377,7 @@ func Deadline(start time.Time, tier string, quick, thorough time.Duration) time.
 //	(internal) VERIF_SHARD=i/n    run one shard and print its Result as JSON on stdout
 func Main(s Spec) {
 	debug.SetGCPercent(400)
+	CurrentProperty = s.Property
 	args := os.Args[1:]
 	if len(args) >= 2 && args[0] == "--replay" {
 		os.Exit(replay(s, args[1]))
@@ -434,7 +458,7 @@ func finish(s Spec, tier string, res *Result, start time.Time) int {
 		}
 	}
 	findings := LoadFindings()
-	matched := map[string]int64{}
+	matched := res.Matched
 	var unmatched []*Violation
 	sigs := make([]string, 0, len(res.Violations))
 	for sig := range res.Violations {
